@@ -329,7 +329,7 @@ def run(repo: Repo) -> Result:
             all_atoms |= interp.flat_prov(A.ref(n))
     all_atoms |= K | V | Aset
     all_atoms = bases(all_atoms)
-    K_via, V_via, A_direct = looked_up(K), looked_up(V), {a for a in Aset if a and a[0] != "v"}
+    A_direct = {a for a in Aset if a and a[0] != "v"}
     K, V, Aset = bases(K), bases(V), frozenset(bases(Aset))
     site_of: dict = {}
     for s in interp.sites.values():
@@ -475,13 +475,11 @@ def run(repo: Repo) -> Result:
                         seen |= {g for g in ng if caps.get(g)}
         aliased_names += [atom(lp, g) for g in sorted(seen)]
     if aliases:
-        ok = bool(alias_maps)
-        if not ok and fuzzy:
-            res.undecide("C06.R3", f"{parse_key}::alias map", "no dict keyed by the alias group with component names as values is recognised", parse_where)
-        else:
-            res.add("C06.R3", f"{parse_key}::alias map", ok, "a dict maps the text of the alias group to the declared component name" if ok else "no dict maps declared aliases to component names: aliases are never resolved", parse_where, kind="flow")
-        flow("C06.R3", f"{parse_key}::dependor resolved", aliased_names, K_via, "the dependor of every arrow can be replaced by the component name its alias was declared for", "keys of the returned relation never come out of the alias map (dependors are stored without alias resolution)", parse_where)
-        flow("C06.R3", f"{parse_key}::every dependee resolved", aliased_names, V_via, "every dependee can be replaced by the component name its alias was declared for", "elements of the value sets of the returned relation never come out of the alias map (dependees are stored without alias resolution)", parse_where)
+        if alias_maps:
+            res.add("C06.R3", f"{parse_key}::alias map", True, "a dict maps the text of the alias group to the declared component name", parse_where, kind="flow")
+        # text of the declaration pattern has no other way into the relation than alias resolution (through a mapping or any other lookup)
+        flow("C06.R3", f"{parse_key}::dependor resolved", aliased_names, K, "the dependor of every arrow can be replaced by the component name its alias was declared for", "keys of the returned relation never come from the declarations (dependors are stored without alias resolution)", parse_where)
+        flow("C06.R3", f"{parse_key}::every dependee resolved", aliased_names, V, "every dependee can be replaced by the component name its alias was declared for", "elements of the value sets of the returned relation never come from the declarations (dependees are stored without alias resolution)", parse_where)
     elif not res.violations:
         res.undecide("C06.R3", f"{parse_key}::alias map", "no group of the declaration pattern binds the alias of `[N] as AL`", parse_where)
     other_maps = [n for n in interp.nodes.values() if isinstance(n, A.Dict) and n not in alias_maps and set(names) & bases(n.v.prov)]
@@ -736,7 +734,10 @@ def check_tags(repo: Repo, res: Result, parser: ClassInfo, error_cls: ClassInfo,
         hard = [r for r in interp.raised if r.how in ("stmt", "op")]
         key, where_ = raise_site(interp)
         construct = f"{parse_key}::{what} is rejected"
-        if completed and not hard:
+        soft = [r for r in interp.raised if r.name not in ("builtins.KeyError", "builtins.AttributeError", "builtins.StopIteration")]
+        if completed and not hard and (interp.unknown or soft):
+            res.undecide("C06.R4", construct, f"folding the tag slicing on a file with {what} finds no raise, but not everything is modelled (unmodelled: {interp.unknown[:3]}; may raise: {sorted({r.name for r in soft})[:3]})", where_)
+        elif completed and not hard:
             res.add("C06.R4", construct, False, f"a file with {what} is accepted: no path raises PumlParsingError (the no-match branch does not raise)", parse_where, kind="dominance")
         elif completed:
             res.undecide("C06.R4", construct, f"folding the tag slicing on a file with {what} does not decide whether parse() raises (unmodelled: {interp.unknown[:3]})", where_)
